@@ -12,7 +12,7 @@ import re
 
 import common as C
 
-SRC_FILES = ['src/order.rs', 'src/shape.rs', 'src/index.rs', 'src/lib.rs', 'src/arithmetic.rs', 'src/iter/iter_mut.rs', 'src/swap.rs', 'src/iter.rs', 'src/construct.rs']
+SRC_FILES = ['src/order.rs', 'src/shape.rs', 'src/index.rs', 'src/lib.rs', 'src/arithmetic.rs', 'src/iter/iter_mut.rs', 'src/swap.rs', 'src/iter.rs', 'src/construct.rs', 'src/eq.rs']
 GEN_DIR = os.path.join(C.BUILD, 'gen')
 
 # which kernel functions each property's theorems rest on
@@ -38,7 +38,7 @@ OBLIGATIONS = {
             'Matrix_transpose', 'Matrix_switch_order', 'Matrix_switch_order_without_rearrangement', 'Matrix_set_order', 'Matrix_set_order_without_rearrangement'],
     'C06': ['AxisShape_major_stride', 'AxisShape_minor_stride', 'Matrix_major_stride', 'Matrix_minor_stride', 'Matrix_major', 'Matrix_minor',
             ] + VIEWS + ITER_MACHINES,
-    'C07': ['AxisIndex_swap', 'AxisIndex_from_flattened', 'AxisIndex_to_flattened'],
+    'C07': ['AxisIndex_swap', 'AxisIndex_from_flattened', 'AxisIndex_to_flattened', 'Matrix_eq'],
     'C08': ['Shape_size', 'Shape_try_to_axis_shape', 'Shape_to_axis_shape_unchecked', 'Matrix_check_size', 'AxisShape_size'] + CTORS,
     'C09': ['Shape_size', 'Shape_try_to_axis_shape', 'Shape_to_axis_shape_unchecked', 'Matrix_reshape', 'Matrix_size', 'AxisShape_size'],
     'C10': ['AxisIndex_from_index', 'AxisIndex_is_out_of_bounds', 'Matrix_major_stride', 'Matrix_minor_stride', 'Matrix_major', 'Matrix_minor',
